@@ -144,7 +144,12 @@ class SymContext(object):
         ids = set()
         for v in values:
             if isinstance(v, self._sym.Re):
-                ids.add(v.t.get_id())
+                todo = [v.t]
+                while todo:
+                    x = todo.pop()
+                    if z3.is_const(x) and x.decl().kind() == z3.Z3_OP_UNINTERPRETED:
+                        ids.add(x.get_id())
+                    todo.extend(x.children())
         out = []
         for f in self.ctx.facts:
             names = set()
@@ -200,7 +205,9 @@ class SymContext(object):
         """assert-then-assume cut at the assignment `local_name = ...` inside function `qual`:
         hook(value) states what is proved about the value (c.step/c.ensures) and returns the
         abstracted value that execution continues with"""
-        self.ip.cuts[(qual, local_name)] = lambda v, env: hook(v)
+        import inspect
+        nargs = len(inspect.signature(hook).parameters)
+        self.ip.cuts[(qual, local_name)] = (lambda v, env: hook(v)) if nargs == 1 else (lambda v, env: hook(v, env.vars))
 
     def loop_invariant(self, qual, ordinal, inv, havoc, name=None, variant=None):
         """inductive invariant for the `ordinal`-th loop (source order) of function `qual`
